@@ -2,7 +2,14 @@
      P <safe 0/1> cp cp ...      parse the text (code points) with symbolic oracles
      T <ints...>                 format a message (see harness/props/c11.py:enc_msg)
      C lo hi                     character classes of code points lo..hi-1 (s = space, w = word, - = neither)
-     L cp cp ...                 prep: stripped non-blank lines *)
+     L cp cp ...                 prep: stripped non-blank lines
+   concrete literal model (Text/PyLiteral.v):
+     I lo hi lo hi ...           set the printable oracle (str.isprintable) to the union of [lo,hi)
+     R <ser 0/1> s|b cp ...      physical lines of the rendered str / bytes value
+     R <ser 0/1> i <neg 0/1> bit bit ...   ... of an int (magnitude in binary, most significant bit first)
+     E cp cp ...                 read_lit (ast.literal_eval) of the text
+     M <ints...>                 format a message with concrete values (see harness/props/c11.py:enc_cmsg)
+     Q <safe 0/1> cp cp ...      parse the text with the concrete literal reader *)
 type sym =
   | Lit of int list | Vec of int list list | Uuid of int list | Repl of int list
   | Eval of int list | NoneV | Pack of int list * int list * int list * string * sym
@@ -101,6 +108,90 @@ let fmt (a : int array) : string =
   let txt = to_human present suffix (fun _ -> comments) m in
   show_s (ints_of_str txt)
 
+(* ---- concrete literal model ---- *)
+let ptab = Bytes.make (0x110000 / 8) '\000'
+let set_printable (l : int list) =
+  Bytes.fill ptab 0 (Bytes.length ptab) '\000';
+  let rec go = function
+    | lo :: hi :: r ->
+      for c = lo to hi - 1 do
+        Bytes.set ptab (c lsr 3) (Char.chr (Char.code (Bytes.get ptab (c lsr 3)) lor (1 lsl (c land 7))))
+      done; go r
+    | _ -> () in
+  go l
+let printable (c : n) : bool =
+  let c = int_of_n c in
+  c < 0x110000 && (Char.code (Bytes.get ptab (c lsr 3)) lsr (c land 7)) land 1 = 1
+
+let pos_of_bits (bits : int list) : positive option =
+  let rec drop = function 0 :: r -> drop r | l -> l in
+  match drop bits with
+  | [] -> None
+  | _ :: r -> Some (List.fold_left (fun p b -> if b = 1 then XI p else XO p) XH r)
+let z_of_bits (neg : bool) (bits : int list) : z =
+  match pos_of_bits bits with None -> Z0 | Some p -> if neg then Zneg p else Zpos p
+let rec bits_of_pos (p : positive) (acc : string) : string =
+  match p with XH -> "1" ^ acc | XO q -> bits_of_pos q ("0" ^ acc) | XI q -> bits_of_pos q ("1" ^ acc)
+let show_z = function Z0 -> "0" | Zpos p -> bits_of_pos p "" | Zneg p -> "-" ^ bits_of_pos p ""
+
+let show_pval = function
+  | VStr s -> "S:" ^ show_s (ints_of_str s)
+  | VBytes b -> "B:" ^ show_s (ints_of_str b)
+  | VInt z -> "I:" ^ show_z z
+  | VNone -> "N"
+  | VOpaque (t, d) -> "O:" ^ string_of_int (int_of_n t) ^ ":" ^ String.concat "/" (List.map (fun x -> show_s (ints_of_str x)) d)
+
+(* the oracles that stay symbolic in the concrete parser: 1 vector, 2 uuid, 3 replacement, 4 eval, 5 packed *)
+let c_read_vec ps =
+  if List.for_all (fun p -> simple_float (ints_of_str p)) ps then Some (VOpaque (n_of_int 1, ps)) else None
+let c_read_uuid s = Some (VOpaque (n_of_int 2, [s]))
+let c_repl s = if List.mem (ints_of_str s) known_repl then Some (VOpaque (n_of_int 3, [s])) else None
+let c_eval s _ = Some (VOpaque (n_of_int 4, [s]))
+let c_pack _ _ k _ x =
+  match ints_of_str k with
+  | 90 :: _ -> None
+  | _ -> Some (VOpaque (n_of_int 5, [str_of_ints (List.map Char.code (List.of_seq (String.to_seq (show_pval x))))]))
+
+let show_cblocks bs =
+  String.concat " " (List.concat_map (fun (n, l) ->
+    List.map (fun b ->
+      show_s (ints_of_str n) ^ "[" ^
+      String.concat ";" (List.map (fun (k, v) -> show_s (ints_of_str k) ^ "=" ^ show_pval v) b) ^ "]") l) bs)
+
+let cfmt (a : int array) : string =
+  let pos = ref 0 in
+  let next () = let v = a.(!pos) in incr pos; v in
+  let rints () = let n = next () in let l = List.init n (fun _ -> 0) in List.map (fun _ -> next ()) l in
+  let rstr () = str_of_ints (rints ()) in
+  let rlist f = let n = next () in let l = List.init n (fun _ -> 0) in List.map (fun _ -> f ()) l in
+  let m_in = next () = 1 in
+  let name = rstr () in
+  let flags = n_of_int (next ()) in
+  let comments = rlist rstr in
+  let suffixes = ref [] in
+  let sers = ref [] in
+  let entries = rlist (fun () ->
+    let bn = rstr () in
+    let sfx = rstr () in
+    suffixes := (bn, sfx) :: !suffixes;
+    let bl = rlist (fun () ->
+      rlist (fun () ->
+        let k = rstr () in
+        let ser = next () = 1 in
+        if ser then sers := (bn, k) :: !sers;
+        let kind = next () in
+        let v = match kind with
+          | 0 -> VStr (rstr ())
+          | 1 -> VBytes (rstr ())
+          | _ -> let neg = next () = 1 in VInt (z_of_bits neg (rints ())) in
+        (k, v))) in
+    (bn, bl)) in
+  let m = { m_in = m_in; m_name = name; m_flags = flags; m_blocks = entries } in
+  let hs _ bn k = List.mem (bn, k) !sers in
+  let suffix bn = try List.assoc bn !suffixes with Not_found -> [] in
+  let txt = to_human (c_present printable hs) suffix (fun _ -> comments) m in
+  show_s (ints_of_str txt)
+
 let () =
   try
     while true do
@@ -121,6 +212,26 @@ let () =
         print_endline (String.init (hi - lo) (fun i ->
           let c = n_of_int (lo + i) in
           if is_space c then 's' else if is_word c then 'w' else '-'))
+      | "I" :: ws -> set_printable (ints_of_words ws); print_endline "OK"
+      | "R" :: ser :: kind :: ws ->
+        print_endline (try
+          let v = (match kind with
+            | "s" -> VStr (str_of_ints (ints_of_words ws))
+            | "b" -> VBytes (str_of_ints (ints_of_words ws))
+            | _ -> (match ints_of_words ws with neg :: bits -> VInt (z_of_bits (neg = 1) bits) | [] -> VInt Z0)) in
+          String.concat "|" (List.map (fun l -> show_s (ints_of_str l)) (render_val printable (ser = "1") v))
+        with _ -> "BADCASE")
+      | "E" :: ws ->
+        print_endline (match C11_model.read_lit (str_of_ints (ints_of_words ws)) with None -> "NONE" | Some v -> show_pval v)
+      | "M" :: ws -> print_endline (try cfmt (Array.of_list (ints_of_words ws)) with _ -> "BADCASE")
+      | "Q" :: safe :: ws ->
+        let txt = str_of_ints (ints_of_words ws) in
+        (match from_human C11_model.read_lit c_read_vec c_read_uuid c_repl c_eval VNone has_ser c_pack (safe = "1") txt with
+         | OErr t -> print_endline ("ERR|" ^ show_trace t)
+         | ONoMsg -> print_endline "NOMSG"
+         | OMsg (m, t) ->
+           print_endline ("MSG|" ^ (if m.m_in then "IN" else "OUT") ^ "|" ^ show_s (ints_of_str m.m_name) ^ "|"
+                          ^ string_of_int (int_of_n m.m_flags) ^ "|" ^ show_cblocks m.m_blocks ^ "|" ^ show_trace t))
       | "L" :: ws ->
         print_endline (String.concat "|" (List.map (fun s -> show_s (ints_of_str s)) (prep (str_of_ints (ints_of_words ws)))))
       | _ -> print_endline "?"
